@@ -1,4 +1,5 @@
 import BiotiteModel.Proofs.C10
+import BiotiteModel.Proofs.C10Minimizer
 import BiotiteModel.Gen.C10
 /-!
 # C10 — property theorems (k-mer index tables and selectors)
@@ -199,14 +200,26 @@ theorem C10_minimizer_defect :
     leftmostArgmin [5, int64Max, int64Max, 3] 1 2 = some 1 := by
   decide
 
-/-- **Partial** (bounded, exhaustive — *not* a proof for all inputs): for every key list of length
-2…5 over three distinct key values (all ties and chunk-border positions) and every window 2…4 the
-chunk-wise forward/reverse arg-cum-min combination returns the leftmost minimum of every window.
-The unbounded statement `C10_minimizer` (all keys `< INT64_MAX`) is not proved; see notes/C10.md. -/
-theorem C10_minimizer_partial :
-    ∀ n ∈ [2, 3, 4, 5], ∀ w ∈ [2, 3, 4], w ≤ n →
-      ∀ ord ∈ keyLists n, minimizeAgrees ord w = true := by
-  decide +kernel
+/-- **Minimizer** (`_minimize` with `include_duplicates=True`, the core of `MinimizerSelector` and
+`SyncmerSelector.select`): for every window `w ≥ 1` and every key list whose keys are all below
+`INT64_MAX`, the chunk-wise forward / reverse arg-cumulative-minimum combination never reads outside
+its arrays and returns, for every window `[i, i+w)`, the leftmost position of the minimum — both
+as the executable specification `leftmostArgmin` and as the predicate `IsLeftMin`. -/
+theorem C10_minimizer (ord : List Int) (w : Nat) (hw : 1 ≤ w) (hmax : ∀ v ∈ ord, v < int64Max) :
+    ∃ ps, minimizeAll ord w = .ok ps ∧ ps.map some = windowMinima ord w ∧
+      (∀ i, i + w ≤ ord.length → ∃ p, ps[i]? = some p ∧ IsLeftMin (gOf ord) i (i + w) p) ∧
+      ∀ p ∈ ps, p < ord.length :=
+  minimizeAll_spec ord w hw hmax
+
+/-- `MinimizerSelector.select_from_kmers`: the selected positions are the per-window leftmost minima
+of the permuted keys with consecutive equal positions dropped (as the code does via
+`prev_argcummin`), each paired with the k-mer at that position. -/
+theorem C10_minimizer_select (w : Nat) (hw : 2 ≤ w) (p : Perm) (kmers : List Nat) (ord : List Int)
+    (happly : p.apply kmers = .ok ord) (hlen : w ≤ kmers.length) (hmax : ∀ v ∈ ord, v < int64Max) :
+    ∃ ps, minimizeAll ord w = .ok ps ∧ ps.map some = windowMinima ord w ∧
+      minimizerSelect w p kmers = .ok ((dedupConsecutive ps).map fun i => (i, kmers[i]?.getD 0)) ∧
+      ∀ i ∈ dedupConsecutive ps, kmers[i]? = some (kmers[i]?.getD 0) :=
+  minimizerSelect_spec w hw p kmers ord happly hlen hmax
 
 /-- Syncmer filter: index `i` is selected iff the relative position of its minimum s-mer is one of
 the (normalised) offsets. -/
@@ -278,6 +291,8 @@ example : mergeSlots 2 [canon (· % 2) 2 [⟨1, 0, 0⟩], canon (· % 2) 2 [⟨3
     = .ok (canon (· % 2) 2 [⟨1, 0, 0⟩, ⟨3, 1, 0⟩, ⟨2, 1, 1⟩]) := by decide
 example : toKmerMask ⟨4, 2, none⟩ [false, true, false, false] = .ok [false, false, true] := by decide
 example : minimizerSelect 3 .ident [3, 2, 1, 0, 1, 2, 3, 0] = .ok [(2, 1), (3, 0), (4, 1), (7, 0)] := by decide
+example : windowMinima [3, 2, 1, 0, 1, 2, 3, 0] 3 = [some 2, some 3, some 3, some 3, some 4, some 7] := by decide
+example : ∀ v ∈ ([3, 2, 1, 0, 1, 2, 3, 0] : List Int), v < int64Max := by decide
 example : filterSyncmer [0, 2] [0, 1, 2, 0] = [0, 2, 3] := by decide
 example : mincodeSelect ⟨2, 2, none⟩ 2 .ident [0, 1, 2, 3] = .ok [(0, 0), (1, 1)] := by decide
 example : pickleRoundTrip (canonTable ⟨2, 2, none⟩ true 2 [⟨1, 0, 0⟩, ⟨2, 0, 1⟩, ⟨3, 5, 4⟩])
